@@ -59,6 +59,13 @@ claim("C14",
       "Inventory equality over shuffle histories is not decided.",
       COMMON_NOTE, "ast ownership (who-may-write) + all-paths event counting + ordering", "DESIGN.md section 3 C14")
 
+claim("C16",
+      "Static conformance analysis (partial, exact): StateRetainer enter/exit symmetry over one deep traversal; every backUp/restoreBackup pair in the tree checked to push/pop a "
+      "stack with matching tuple order (or to nest the pickled state); keep-set captured before and re-applied after the roll-back; owners of GLOBAL_SERIAL_NUM and fresh serials "
+      "after state load; read-only test dominating the store and the frozen bypass list; no in-place mutation of grid state that backUp saved by reference; frozen list of in-place "
+      "mutations of parameter containers (three of which change values on a read-only reactor: recorded known finding). Exact restoration of values is not decided.",
+      COMMON_NOTE, "sibling agreement (push/pop) + dominance + ownership + aliasing lint", "DESIGN.md section 3 C16")
+
 NA_REASON = {}
 
 
